@@ -60,7 +60,7 @@ func (cache *CacheLRU) GetTime(key string) (int64, error) {
 
 func (cache *CacheLRU) Flush() {
 	clear(cache.keys)
-	clear(cache.entries)
+	cache.entries = cache.entries[:0]
 }
 
 func (cache *CacheLRU) Len() int {
